@@ -380,6 +380,7 @@ type vCase struct {
 	Header   string   `json:"header,omitempty"`
 	Line     int      `json:"gen_line"`
 	Seed     int64    `json:"verif_seed"` // the keys and all random contents derive from it
+	Check    string   `json:"check,omitempty"` // which of the three consensus checks disagreed with the model
 }
 
 func hdrJSON(b *types.Block) string {
@@ -723,6 +724,7 @@ func (h *vHarness) compare(res *verifkit.Result, check string, model, code bool,
 		return
 	}
 	cs.Seed = verifkit.Seed()
+	cs.Check = check
 	names := map[string]string{"sig": "DPoS.VerifySign", "bp": "DPoS.IsBlockValid", "ts": "DPoS.VerifyTimestamp"}
 	kind := "rejected-legitimate"
 	if code {
@@ -730,7 +732,13 @@ func (h *vHarness) compare(res *verifkit.Result, check string, model, code bool,
 	}
 	sig := map[string]interface{}{"kind": kind, "check": check, "mutation": mutClass(r.Mut)}
 	if r.Mut.Kind == "shift" {
-		sig["fields"] = r.Mut.F + "|" + r.Mut.G
+		// Moving bytes across the boundary of two neighbouring variable-length header fields leaves the signed
+		// digest unchanged (the digest concatenates the fields without length prefixes), so the signature DOES
+		// verify over the complete header that is presented.  C09 as stated ("its signature verifies over its
+		// complete header") is therefore not violated; the non-injective header encoding is recorded as an
+		// observation (DESIGN.md, findings outside the listed properties), not reported as a violation.
+		res.Note("observation (not a C09 violation): %s accepts a header with bytes shifted between %s and %s - same digest, signature still valid", names[check], r.Mut.F, r.Mut.G)
+		return
 	}
 	sk, _ := json.Marshal(sig)
 	h.mu.Lock()
